@@ -54,10 +54,20 @@ func Ident(t *rapid.T, label string, pool []string) string {
 // breaks. A few multi-byte runes are included.
 var textRunes = []rune("abcdefghijklmnopqrstuvwxyzABCXYZ0123456789 _-;,.:\"()*=<>!/%#éß日本")
 
+// escape units: the scanner (a copy of Go's text/scanner) treats a backslash
+// inside a string token as the start of an escape and keeps the raw text, so
+// these two-character units are part of what a literal can carry. The stored
+// string is the raw text, backslash included.
+var textUnits = []string{`\'`, `\\`, `\"`, `\n`, `\t`}
+
 func TextString(t *rapid.T, label string, maxLen int) string {
 	n := rapid.OneOf(rapid.IntRange(0, 3), rapid.IntRange(0, maxLen)).Draw(t, label+"_len")
 	var sb strings.Builder
 	for sb.Len() < n {
+		if n-sb.Len() >= 2 && rapid.IntRange(0, 24).Draw(t, label+"_esc") == 0 {
+			sb.WriteString(rapid.SampledFrom(textUnits).Draw(t, label+"_unit"))
+			continue
+		}
 		r := rapid.SampledFrom(textRunes).Draw(t, label+"_r")
 		if sb.Len()+len(string(r)) > n {
 			sb.WriteByte('x')
@@ -124,9 +134,18 @@ func Value(t *rapid.T, label string, ct model.ColType, direct bool, small bool, 
 // Style is the set of layout choices for one rendered statement.
 type Style struct {
 	t *rapid.T
+	// longPad: once per statement a run of white space of this length is
+	// emitted (statements longer than the scanner's 1024-byte buffer)
+	longPad int
 }
 
-func NewStyle(t *rapid.T) *Style { return &Style{t: t} }
+func NewStyle(t *rapid.T) *Style {
+	s := &Style{t: t}
+	if rapid.IntRange(0, 5).Draw(t, "longpad") == 0 {
+		s.longPad = rapid.IntRange(900, 1100).Draw(t, "longpad_len")
+	}
+	return s
+}
 
 // Plain renders deterministically (upper-case keywords, single spaces).
 func Plain() *Style { return &Style{} }
@@ -160,6 +179,11 @@ func (s *Style) KW(k string) string {
 func (s *Style) SP() string {
 	if s.t == nil {
 		return " "
+	}
+	if s.longPad > 0 && rapid.IntRange(0, 3).Draw(s.t, "padhere") == 0 {
+		n := s.longPad
+		s.longPad = 0
+		return strings.Repeat(" ", n)
 	}
 	return rapid.SampledFrom([]string{" ", " ", " ", "  ", "\t", "\n", " \n  ", "\r\n"}).Draw(s.t, "sp")
 }
